@@ -100,14 +100,17 @@ func c14readonly(env *core.Env) {
 
 // readBack checks that everything the model holds is retrievable from r.
 func readBack(env *core.Env, ctx context.Context, r ociregistry.Interface, m *reg.Model, class string) {
-	for name, repo := range m.Repos {
-		for d, data := range repo.Blobs {
+	for _, name := range sortedKeys(m.Repos) {
+		repo := m.Repos[name]
+		for _, d := range sortedKeys(repo.Blobs) {
+			data := repo.Blobs[d]
 			res := reg.Exec(ctx, r, &reg.Op{Kind: reg.GetBlob, Repo: name, Digest: d, StopAfter: -1, ContentFault: -1}, nil)
 			if res.Err != nil || !bytes.Equal(res.Data, data) {
 				env.Failf(class, "blob %s in %q is no longer served as pushed (%s)", d, name, res)
 			}
 		}
-		for d, mm := range repo.Manifests {
+		for _, d := range sortedKeys(repo.Manifests) {
+			mm := repo.Manifests[d]
 			res := reg.Exec(ctx, r, &reg.Op{Kind: reg.GetManifest, Repo: name, Digest: d, StopAfter: -1, ContentFault: -1}, nil)
 			if res.Err != nil || !bytes.Equal(res.Data, mm.Data) {
 				env.Failf(class, "manifest %s in %q is no longer served as pushed (%s)", d, name, res)
@@ -310,7 +313,8 @@ func c14immutable(env *core.Env, wrapper bool) {
 			env.Failf(classOf("C14/"+mode, op, why), "step %d: %s\n  result: %s\n  model: %s", i, op, res, why)
 		}
 		// everything a tagged manifest transitively references stays retrievable
-		for key, f := range first {
+		for _, key := range sortedKeys(first) {
+			f := first[key]
 			repo, _, _ := cutLastColon(key)
 			if err := closureRetrievable(ctx, r, repo, f.closure); err != nil {
 				env.Failf("C14/"+mode+"/closure-broken/after-"+op.Kind.String(), "after %s: something %s referenced when it was first observed is no longer retrievable: %v", op, key, err)
@@ -318,7 +322,8 @@ func c14immutable(env *core.Env, wrapper bool) {
 		}
 	}
 	// forever: at the end every observation still holds
-	for key, f := range first {
+	for _, key := range sortedKeys(first) {
+		f := first[key]
 		repo, tag, _ := cutLastColon(key)
 		res := reg.Exec(ctx, r, &reg.Op{Kind: reg.GetTag, Repo: repo, Tag: tag, StopAfter: -1, ContentFault: -1}, nil)
 		if res.Err != nil {
@@ -399,7 +404,8 @@ func c14concurrent(env *core.Env) {
 				seen[key] = dig
 			}
 		}
-		for key, dig := range seen {
+		for _, key := range sortedKeys(seen) {
+			dig := seen[key]
 			repo, tag, _ := cutLastColon(key)
 			d, err := mem.ResolveTag(ctx, repo, tag)
 			if err != nil || d.Digest != dig {
